@@ -12,6 +12,7 @@ package cleaner
 
 //@ func New
 //@   ensures carries_config: r0 != nil && r0.conf.Enabled == cc.Enabled
+//@   ensures own_database_prefix: r0.name == name && len(r0.prefix) == len(name) + 2 && seqEq(r0.prefix[:len(name)], name) && r0.prefix[len(name)] == 95 && r0.prefix[len(name)+1] == 95
 
 //@ func (w *Worker) GetCommitted
 //@   requires lock_free_on_entry: !held(w.mu)
@@ -42,6 +43,10 @@ package cleaner
 // newer than what this instance merged and re-published (GetCommitted).
 //@ func (w *Worker) RunOnce
 //@   modifies *
-//@   at_call simpleblob.Interface.Delete#1 assert merge_proven: !ni.Timestamp.After(lastCommitted)
+//@   at_call simpleblob.Interface.List#0 assert lists_own_database_only: arg2 == w.prefix
+//@   at_call cleaner.(*Worker).GetCommitted#0 assert asks_for_that_instance: arg1 == ni.InstanceID
+//@   after_call cleaner.(*Worker).GetCommitted#0 ghost loc_lcWall := ret0.wall
+//@   after_call cleaner.(*Worker).GetCommitted#0 ghost loc_lcExt := ret0.ext
+//@   at_call simpleblob.Interface.Delete#1 assert merge_proven: !ni.Timestamp.After(lastCommitted) && lastCommitted.wall == ghost_loc_lcWall && lastCommitted.ext == ghost_loc_lcExt && arg2 == ni.FullName
 //@   ensures disabled_does_nothing: !w.conf.Enabled ==> r0 == nil && ghost_ndelete == old(ghost_ndelete)
 //@   ensures list_error_no_delete: r0 != nil ==> ghost_ndelete == old(ghost_ndelete)
